@@ -133,6 +133,11 @@ macro_rules! cfg_impl {
                 let mut over = vec![0u8; bytes_len]; over.push(1); cases.push(over);                       // value 2^(8*BYTES) >= N, low part 0
                 let mut over2 = vec![5u8]; over2.resize(2 * bytes_len + 3, 0); *over2.last_mut().unwrap() = 1; cases.push(over2);   // low part 5 < N, high byte set
                 cases.push(vec![0xff; bytes_len]); cases.push(vec![0xff; bytes_len - 1]); cases.push(vec![0u8; 2 * bytes_len + 3]);
+                // small admissible value followed by excess bytes of every shape a combining guard could mishandle:
+                // single, pair of equal bytes (XOR-cancelling), sum-to-zero, only the last, zero then non-zero
+                for tail in [vec![1u8], vec![0x5a, 0x5a], vec![1, 2, 3], vec![0x80, 0, 0x80], vec![0xff, 0x01], vec![0, 0, 0, 7], vec![0, 0], vec![0xff; 4]] {
+                    let mut b = vec![3u8]; b.resize(bytes_len, 0); b.extend_from_slice(&tail); cases.push(b);
+                }
                 for _ in 0..12 { let l = rng.gen_range(0..2 * bytes_len + 4); let mut b = vec![0u8; l]; rng.fill_bytes(&mut b); if rng.gen_bool(0.5) { let keep = rng.gen_range(0..=l.min(nle.len())); for x in b[keep..].iter_mut() { *x = 0; } } cases.push(b); }
                 for b in cases {
                     let req = format!("pai message {pre} {}", if b.is_empty() { "-".into() } else { hex::encode(&b) });
